@@ -72,6 +72,8 @@ def build_obj(triple, owner_cls, empty):
         else:
             if cname in ('ExcelInPython', 'AbstractExcelInPython') and owner_cls is not None:
                 cls = owner_cls
+    if cls is None:
+        cls = type(cname or 'Opaque', (), {})      # an object whose class the contract does not name (passed through only)
     o = object.__new__(cls)
     for k, v in fields.items():
         object.__setattr__(o, k, materialise(v, owner_cls, empty))
@@ -88,7 +90,31 @@ def materialise(v, owner_cls, empty):
     return v
 
 
+def _z3_stub():
+    """The replay needs a contract module's texts (target, parameters, clauses) and the Python twins of its spec functions,
+    never a solver.  Contract modules that build their z3 vocabulary while the registry is constructed import z3; the
+    interpreter of the real code has none, so a stand-in that absorbs every construction is installed for the import."""
+    import sys
+    try:
+        import z3  # noqa
+        return
+    except ImportError:
+        pass
+    from unittest import mock
+
+    class _Any(mock.MagicMock):
+        def __lt__(self, o): return _Any()
+        def __le__(self, o): return _Any()
+        def __gt__(self, o): return _Any()
+        def __ge__(self, o): return _Any()
+        def __eq__(self, o): return _Any()
+        def __ne__(self, o): return _Any()
+        __hash__ = mock.MagicMock.__hash__
+    sys.modules['z3'] = _Any()
+
+
 def replay(payload):
+    _z3_stub()
     from pv.contract import load_registry
     reg = load_registry(payload['module'])
     con = reg.contracts[payload['contract']]
